@@ -489,6 +489,11 @@ def _is_pure(e: ast.AST) -> bool:
             d = _dotted(n.func)
             if d in _PURE_CALLS:
                 continue
+            # numpy / math functions other than the in-place and random ones
+            if d and d.split(".")[0] in ("np", "numpy", "math") and len(d.split(".")) == 2 and d.split(".")[1] not in (
+                    "put", "copyto", "fill_diagonal", "place", "putmask", "save", "savez", "load", "seterr", "random", "shuffle", "fromfile", "resize"):
+                if not any(k.arg == "out" for k in n.keywords):
+                    continue
             # method calls on values: pure if the method name is a known non-mutating one
             if isinstance(n.func, ast.Attribute) and n.func.attr in ("copy", "all", "any", "sum", "astype", "items", "keys", "values", "get", "tobytes", "ravel",
                                                                       "removeprefix", "split", "strip", "join", "format", "startswith", "endswith", "serialize",
